@@ -24,7 +24,9 @@ RULE = (
     "(result joins the pool) / rebuild(v) (same statement again) / drop(v)+gc, each executed under a freshly drawn "
     "configuration: array.optimize-graph {T,F}, array.rechunk.threshold {1,4,32,1000}, array.rechunk.degree-limit "
     "{2,3,100}, array.rechunk.method {None,'tasks'}, array.chunk-size {64B,1kiB,128MiB}, array.unify-chunks-policy "
-    "{auto,coarse,refine}, array.unify-chunks-limit {None,32B,512MiB}, split_every {2,3,16}. Oracle: every compute, "
+    "{auto,coarse,refine}, array.unify-chunks-limit {None,32B,512MiB}, split_every {2,3,16}. One history in six starts "
+    "with a scripted prefix: a 1-d input of 7-20 one- or two-element blocks is reduced under fan-in 2/3, computed, the "
+    "same statement is rebuilt under fan-in 4/16 (or in the other order) while the first is alive, and computed. Oracle: every compute, "
     "whenever and under whatever configuration it happens, equals the NumPy value fixed when the variable was built "
     "(C01 tolerance). Non-trivial: the history computes variables sharing a subtree under >= 2 different "
     "configurations with a drop or rebuild in between; distinct = distinct history JSON."
@@ -233,12 +235,35 @@ def history_st(draw, max_steps):
     leaves = [P.gen_leaf(D_, max_rank=3, max_len=7)]
     if D_.chance(1, 2):
         leaves.append(P.gen_leaf(D_, shape=tuple(leaves[0]["shape"])))
+    script = []
+    tree_seen, unify_seen = [False], [False]
+    if D_.chance(1, 6):
+        # scripted prefix: one input with MANY blocks, reduced under a small fan-in, computed (its lowered
+        # tree stays alive), then the same statement again under a larger fan-in (or the other way round)
+        n = D_.int(7, 20)
+        ch = [1] * n if D_.bool() else [2] * (n // 2) + ([1] if n % 2 else [])
+        leaves = [{"shape": [n], "dtype": D_.choice(["f8", "i8"]), "chunks": [ch], "offset": D_.choice([0, 1, -3]), "kind": "numpy"}]
+        s = P.OPS[D_.choice(["sum", "sum", "mean", "max", "min", "argmax"])].gen(D_, [P.leaf_data(leaves[0])])
+        if s is not None:
+            s = {k: v for k, v in s.items() if k != "split_every"}
+            s["args"] = [0]
+            a, b = D_.choice([2, 3]), D_.choice([4, 16])
+            if D_.chance(1, 4):
+                a, b = b, a
+            script = [{"k": "build", "stmt": s, "cfg": {"split_every": a}}, {"k": "compute", "v": 1, "cfg": {}}, {"k": "rebuild", "v": 1, "cfg": {"split_every": b}}, {"k": "compute", "v": 2, "cfg": {}}]
+            tree_seen[0] = True
     h = History(leaves)
     steps = []
+    for step in script:
+        h.step(step)
+        steps.append(step)
+        if h.fails:
+            return {"leaves": leaves, "steps": steps}, h.fails, sorted(h.labels | {"fan-in-script"})
+    if script:
+        h.labels.add("fan-in-script")
     fams = P.ops_by_family()
     fw = dict(P.FAMILY_WEIGHTS)
     nsteps = D_.int(4, max_steps)
-    tree_seen, unify_seen = [False], [False]
     for _ in range(nsteps):
         alive = [i for i, a in enumerate(h.alive) if a]
         built = [i for i in alive if i >= len(leaves)]
@@ -357,6 +382,6 @@ def plan(tier):
 
 
 REQUIRED_CLASSES = {
-    "quick": ["step:build", "step:compute", "step:compute_many", "step:persist", "step:rebuild", "step:drop", "step:optimize", "step:graph", "non-default-config", "recompute-under-other-config-after-drop-or-rebuild"] + ["cfg:" + k for k in CFG],
+    "quick": ["fan-in-script", "step:build","step:compute", "step:compute_many", "step:persist", "step:rebuild", "step:drop", "step:optimize", "step:graph", "non-default-config", "recompute-under-other-config-after-drop-or-rebuild"] + ["cfg:" + k for k in CFG],
     "thorough": ["step:build", "step:compute", "step:compute_many", "step:persist", "step:rebuild", "step:drop", "non-default-config", "recompute-under-other-config-after-drop-or-rebuild"] + ["cfg:" + k for k in CFG],
 }
